@@ -115,7 +115,7 @@ func (c *Ctx) ruleOneHandOff(rule string) {
 	if R.Step == nil || R.HandOff == nil {
 		return
 	}
-	v := c.vocab([]string{"deq", "deqok=", "isclosed", "closed=", "handoff", "send"}, map[string]bool{"isclosed": true, "handoff": true})
+	v := c.vocab([]string{"deq", "deqok=", "isclosed", "closed=", "gate", "gate=", "handoff", "send"}, map[string]bool{"isclosed": true, "handoff": true})
 	sr := v.seq(rule, false)
 	segs := sr.segments(R.Step)
 	for _, sg := range segs {
@@ -130,10 +130,10 @@ func (c *Ctx) ruleOneHandOff(rule string) {
 		retErr := len(sg.Ret) == 1 && isNonNilErr(sg.Ret[0])
 		switch {
 		case n == 1:
-			ok := sg.before("closed=false", "handoff") && sg.count("deq") == 1
+			ok := (sg.before("closed=false", "handoff") || sg.before("gate=true", "handoff")) && sg.count("deq") == 1
 			c.Rep.check(ok, rule, R.Step.Short(), "hand-off not preceded by a negative closed test", sg.End,
-				"one dequeue, closed test negative, one hand-off", "the job is handed off without IsClosed() having been tested false on this path (or more than one dequeue per hand-off): "+inst)
-		case n == 0 && sg.has("closed=true"):
+				"one dequeue, closed test negative, one hand-off", "the job is handed off without the closed test (IsClosed() false, or a won compare-and-swap to processing) on this path, or more than one dequeue per hand-off: "+inst)
+		case n == 0 && (sg.has("closed=true") || sg.has("gate=false")):
 			c.Rep.check(retNil || retErr, rule, R.Step.Short(), "closed-skip path", sg.End, "closed job skipped without hand-off", "closed-skip must return")
 		case n == 0 && retErr:
 			c.Rep.ok(rule, inst, sg.End, "error return without hand-off", true)
